@@ -20,7 +20,7 @@ namespace MM.C15
 open MM.C11
 
 theorem C15_beyond (mh : Nat) (peers : List Node) (self frm clock : Nat) (a : Adv) (st : NodeSt)
-    (hmh : mh > 0) (hfar : hopsOf a > mh) :
+    (hwd : a.wd = false) (hmh : mh > 0) (hfar : hopsOf a > mh) :
     (handle mh peers self frm clock a st).1.entries = st.entries ∧
     (handle mh peers self frm clock a st).2.1 = [] := by
   unfold handle
@@ -29,11 +29,11 @@ theorem C15_beyond (mh : Nat) (peers : List Node) (self frm clock : Nat) (a : Ad
   · dsimp only
     split
     · exact ⟨rfl, rfl⟩
-    · rw [if_pos ⟨hmh, hfar⟩]
+    · rw [if_neg (by simp [hwd]), if_pos ⟨hmh, hfar⟩]
       exact ⟨rfl, rfl⟩
 
 theorem C15_at_limit (mh : Nat) (peers : List Node) (self frm clock : Nat) (a : Adv) (st : NodeSt)
-    (hmh : mh > 0) (hat : hopsOf a = mh) :
+    (hwd : a.wd = false) (hmh : mh > 0) (hat : hopsOf a = mh) :
     (handle mh peers self frm clock a st).2.1 = [] := by
   unfold handle
   split
@@ -41,13 +41,14 @@ theorem C15_at_limit (mh : Nat) (peers : List Node) (self frm clock : Nat) (a : 
   · dsimp only
     split
     · rfl
-    · split
+    · rw [if_neg (by simp [hwd])]
+      split
       · rfl
       · rw [if_pos ⟨hmh, by omega⟩]
 
 structure Inv (s : Net) : Prop where
   entries : ∀ x e, e ∈ (s.nodes x).entries → e.path.length ≤ s.maxHops
-  flight : ∀ f, f ∈ s.flight → f.adv.seenBy ≠ [] ∧
+  flight : ∀ f, f ∈ s.flight → f.adv.seenBy ≠ [] ∧ (f.adv.wd = true → f.adv.path = []) ∧
     (f.adv.path.length ≤ s.maxHops ∨ (f.adv.seenBy.length = 1 ∧ f.adv.path.length ≤ s.maxHops + 1))
 
 theorem inv_init (n mh : Nat) (L : Node → List RAd) : Inv (init n mh L) where
@@ -61,7 +62,7 @@ theorem inv_step {s : Net} {op : Op} (hmh : s.maxHops > 0) (hI : Inv s) : Inv (s
   entries := by
     intro x e he
     rw [step_maxHops]
-    rcases entries_step he with h | ⟨a, m, hm, _, _, _, hacc, _, r, _, rfl⟩
+    rcases entries_step he with h | ⟨a, m, hm, _, _, _, _, hacc, _, r, _, rfl⟩
     · exact hI.entries x e h
     · have hlim := hacc.2.2
       simp only [tick_maxHops, hopsOf, gt_iff_lt, not_and, Nat.not_lt] at hlim
@@ -77,18 +78,29 @@ theorem inv_step {s : Net} {op : Op} (hmh : s.maxHops > 0) (hI : Inv s) : Inv (s
     | old h => exact hI.flight f h
     | ann hop ha hd hadv =>
       rw [hadv]
-      exact ⟨by simp [announceAdv], Or.inl (by simp [announceAdv]; omega)⟩
-    | fwd a m hm hl ha hb hd hne hns hself hacc hlim hadv =>
+      exact ⟨by simp [announceAdv], by simp [announceAdv], Or.inl (by simp [announceAdv]; omega)⟩
+    | wdr hop ha hcidr hd hadv =>
       rw [hadv]
-      refine ⟨by simp [fwdAdv], Or.inl ?_⟩
-      simp only [tick_maxHops, hopsOf, ge_iff_le, not_and, Nat.not_le] at hlim
-      have := hlim hmh
-      simp only [fwdAdv, List.length_cons]
-      split at this <;> omega
+      exact ⟨by simp [withdrawAdv], by simp [withdrawAdv], Or.inl (by simp [withdrawAdv])⟩
+    | fwd a m hm hl ha hb hd hne hns hself hseen hsb hlim hadv =>
+      rw [hadv]
+      obtain ⟨_, hwp, _⟩ := hI.flight _ hm
+      cases hwd : m.wd with
+      | true =>
+        refine ⟨by simp, (fun _ => by rw [fwdAdv_path_wd hwd]; exact hwp hwd), Or.inl ?_⟩
+        rw [fwdAdv_path_wd hwd, hwp hwd]; simp
+      | false =>
+        refine ⟨by simp, (fun h => by rw [fwdAdv_wd, hwd] at h; cases h), Or.inl ?_⟩
+        have hlim' := hlim hwd
+        simp only [tick_maxHops, hopsOf, ge_iff_le, not_and, Nat.not_le] at hlim'
+        have := hlim' hmh
+        rw [fwdAdv_path hwd]
+        simp only [List.length_cons]
+        split at this <;> omega
     | rep ord hop ha hb hl hadv =>
       obtain ⟨o, sq, _, _, hm⟩ := mem_replayAdvs hadv
       rw [hm]
-      refine ⟨by simp [replayGroup], Or.inr ⟨by simp [replayGroup], ?_⟩⟩
+      refine ⟨by simp [replayGroup], by simp [replayGroup], Or.inr ⟨by simp [replayGroup], ?_⟩⟩
       rcases replayGroup_path f.src f.dst ((tick s).nodes f.src) o sq with hp | ⟨e, he, _, _, _, hp⟩
       · rw [hp]; simp
       · rw [hp]
@@ -120,7 +132,7 @@ theorem C15_holds : C15_statement := by
     have := hI.entries x e he
     omega
   · intro f hf hlen
-    rcases (hI.flight f hf).2 with h | ⟨h, _⟩
+    rcases (hI.flight f hf).2.2 with h | ⟨h, _⟩
     · omega
     · exact absurd h hlen
 
